@@ -23,6 +23,8 @@ type C09Peer struct {
 }
 
 type C09Scenario struct {
+	// Metrics: the Exchange is built WithMetrics (a configuration that must not change any result)
+	Metrics  bool      `json:"metrics,omitempty"`
 	Trusted  bool      `json:"trusted_head"` // WithTrustedHead mode
 	Peers    []C09Peer `json:"peers"`
 	Deadline bool      `json:"deadline"`            // caller ctx with a 3s deadline (else 60s)
@@ -62,6 +64,7 @@ func genC09(t *rapid.T) C09Scenario {
 		}
 		s.Peers = append(s.Peers, p)
 	}
+	s.Metrics = rapid.IntRange(0, 3).Draw(t, "metrics") == 0
 	return s
 }
 
@@ -81,6 +84,8 @@ func c09Quorum(n int) int {
 }
 
 func runC09(t *testing.T, s C09Scenario) (res Result) {
+	exchangeMetrics = s.Metrics
+	defer func() { exchangeMetrics = false }()
 	bubble(t, func() {
 		spec := vh.ChainSpec{ChainID: "c09", N: 60, StartMs: -1_000_000, Spans: []uint64{10}}
 		if s.SoftType {
@@ -217,7 +222,7 @@ func runC09(t *testing.T, s C09Scenario) (res Result) {
 		res.Obs = map[string]any{"got": got.String(), "err": fmt.Sprint(gerr), "elapsed": elapsed.String(), "asked": n, "quorum": q}
 
 		if n == 0 {
-			res.failf("HARNESS: no peer was asked")
+			res.failf("Head returned (%v, %v) after %v without asking any of the %d connected trusted peers", got, gerr, elapsed, len(s.Peers))
 			return
 		}
 		isSoftErr := func(err error) bool {
